@@ -184,7 +184,8 @@ def replay_once(binp, cfg, work, path, tag="replay"):
         rf = json.load(f)
     job["scenario"] = rf["scenario"]
     job["tier"] = rf.get("tier", "quick")
-    job["known"] = [{"id": k["id"], "class": k["class"], "detail": k.get("detail", "")} for k in load_known(cfg["id"])]
+    job["known"] = [{"id": k["id"], "class": k["class"], "detail": k.get("detail", "")} for k in load_known(cfg.get("report_as", cfg["id"]))]
+    job["params"] = rf.get("params") or {}
     rwork = os.path.join(work, tag)
     os.makedirs(rwork, exist_ok=True)
     outs = run_workers(binp, job, rwork, 1, wall_limit=600)
